@@ -499,6 +499,25 @@ func checkC20(c *Ctx) {
 		if held {
 			steps = append(steps, c20Step{Op: "release"})
 		}
+		if !curAuto {
+			// manual final mode: a cache is as recent as its last (re)configuration, so
+			// directory changes generated after the last Configure are dropped
+			last := 0
+			for i, st := range steps {
+				if st.Op == "configure" || st.Op == "new" {
+					last = i
+				}
+			}
+			kept := steps[: last+1 : last+1]
+			for _, st := range steps[last+1:] {
+				switch st.Op {
+				case "write", "write-in-place", "remove", "mkdir", "rmdir":
+				default:
+					kept = append(kept, st)
+				}
+			}
+			steps = kept
+		}
 		// (no directory change after the last Configure: the comparison with a fresh
 		// cache is made right after it; later changes are exercised further down)
 		if exhausted {
